@@ -81,6 +81,16 @@ type vfKindSpec struct {
 	Devs     []vfDev
 }
 
+// pairs of fields whose combinations are enumerated in the quick tier as well (selector + argument)
+var vfQuickPairs = map[string][][2]string{
+	"del":  {{"del.topic", "del.what"}, {"del.what", "del.user"}},
+	"note": {{"note.topic", "note.what"}, {"note.what", "note.seq"}, {"note.what", "note.event"}},
+	"get":  {{"get.topic", "get.what"}},
+	"acc":  {{"acc.user", "acc.tmpscheme"}, {"acc.user", "acc.scheme"}, {"acc.tmpscheme", "acc.tmpsecret"}},
+	"set":  {{"set.topic", "set.sub.user"}},
+	"sub":  {{"sub.topic", "sub.get.what"}},
+}
+
 func vfKinds() []vfKindSpec {
 	return []vfKindSpec{
 		{"hi", func(g *vfGW, t string) map[string]any {
@@ -385,11 +395,19 @@ func TestVerifC13Inputs(t *testing.T) {
 				for i, d := range k.Devs {
 					for vi := 0; vi < sizes[d.Vals]; vi++ {
 						runCase(cfg, state, k, [][2]any{{d, vi}}, []string{fmt.Sprintf("%s=%s#%d", d.Path, d.Vals, vi)})
-						if !pairs {
-							continue
-						}
 						for j := i + 1; j < len(k.Devs); j++ {
 							d2 := k.Devs[j]
+							if !pairs {
+								sel := false
+								for _, qp := range vfQuickPairs[k.Kind] {
+									if (qp[0] == d.Path && qp[1] == d2.Path) || (qp[1] == d.Path && qp[0] == d2.Path) {
+										sel = true
+									}
+								}
+								if !sel {
+									continue
+								}
+							}
 							if strings.HasPrefix(d2.Path, d.Path+".") || strings.HasPrefix(d.Path, d2.Path+".") {
 								continue
 							}
